@@ -40,3 +40,23 @@ PROPS["C19"] = {
     "thorough": {"stages": [{"kind": "replay"}, {"kind": "rc", "procs": 16, "cases": 300000, "maxlen": 96},
                             {"kind": "fuzz", "workers": 16, "seconds": 150, "maxlen": 96}]},
 }
+
+PROPS["C18"] = {
+    "source": "c18_mime.cc",
+    "level": "exploration",
+    "rule": ("choice-stream decoded by construction into a media-type AST: type (8 known, any case) / subtype (17 known any case | vnd.-token | "
+             "extension token, incl. the labelled class of tokens that begin with a known subtype) [+ suffix (7 known | extension)] and 0-3 of "
+             "'; q=' (hundredths, several spellings) and '; name=value' (incl. names starting with q/Q); the constructed form "
+             "MediaType(type,sub[,suffix])+setQuality+setParam; and an invalid half (truncation after / + ; = q=, absurd q-values, byte "
+             "mutations, random bytes). Every text is parsed twice: fromString and fromRaw on a buffer ending at a PROT_NONE guard page. "
+             "Non-trivial = has a q-value, parameter or suffix, or a mutated text ending at a separator / with an absurd or buffer-final q. "
+             "Distinct = hash of the text."),
+    "engine": "rapidcheck+libFuzzer",
+    "technique": "property-based testing (rapidcheck) and libFuzzer: generator-AST round-trip oracle, toString()==input, constructed->text->parsed equality, 415-or-parse for mutants, guard-page buffer for over-reads",
+    "level_text": "Generated-input search whose oracle is the generator's own AST (independent of the parser) plus a guard page that turns any read past the given length into a fault. Exploration only.",
+    "level_note": "Trusts the harness's AST/serialiser and ASan/UBSan; vendor prefix generated in lower case only (documented case-sensitive).",
+    "assumptions": ["a read past (ptr,len) of at least one byte hits the PROT_NONE page because the text is placed flush against it"],
+    "quick": {"stages": [{"kind": "replay"}, {"kind": "rc", "procs": 8, "cases": 20000, "maxlen": 120}]},
+    "thorough": {"stages": [{"kind": "replay"}, {"kind": "rc", "procs": 16, "cases": 300000, "maxlen": 120},
+                            {"kind": "fuzz", "workers": 16, "seconds": 150, "maxlen": 120}]},
+}
